@@ -53,6 +53,9 @@ pub struct Case {
     /// complaint kinds of the monitor that confirm the fault (empty = not dynamically observable)
     pub monitor_kinds: Vec<String>,
     pub inputs: Vec<Inputs>,
+    /// also lint the program cut into two files: source lines a..b go to an included file
+    #[serde(default)]
+    pub cut: Option<(usize, usize)>,
 }
 
 pub struct C05;
@@ -477,6 +480,7 @@ impl Prop for C05 {
         let (base, info) = clean::program(ch, &o);
         let m = mutate(class, &base, &info, ch)?;
         let inputs = (0..3).map(|_| Inputs::from_choices(ch)).collect();
+        let n_text_lines = render_plain(&m.lines).text.lines().count().max(2);
         Some(Case {
             base,
             mutated: m.lines,
@@ -486,6 +490,14 @@ impl Prop for C05 {
             accept_reg: m.reg,
             monitor_kinds: m.monitor.iter().map(|s| s.to_string()).collect(),
             inputs,
+            cut: if ch.chance(1, 4) {
+                let n = n_text_lines;
+                let a = ch.below(n - 1);
+                let b = a + 1 + ch.below(n - a - 1).min(40);
+                Some((a, b))
+            } else {
+                None
+            },
         })
     }
 
@@ -534,41 +546,86 @@ impl Prop for C05 {
         ctx.fact("mutants_linted", 1);
         let ti = TextIndex::new(&rd.text);
         let src_lines: BTreeSet<usize> = case.accept_lines.iter().filter_map(|l| rd.map.get(*l).map(|m| m.line)).collect();
-        let of_kind: Vec<&adapter::Diag> = lint.diags.iter().filter(|d| d.code == case.expect_code).collect();
-        let located: Vec<&&adapter::Diag> = of_kind
-            .iter()
-            .filter(|d| src_lines.contains(&ti.line_col(d.range.start.raw.min(ti.len())).0))
-            .collect();
-        let reg_ok = |d: &adapter::Diag| match case.accept_reg {
-            None => true,
-            Some(r) => {
-                let s = ti.slice(d.range.start.raw, d.range.end.raw + 1);
-                // either the operand itself or, for ra written by a call, the call's implicit
-                // operand (its mnemonic) or the whole instruction
-                reg_from_name(&s) == Some(r) || r == RA
+        let judge = |diags: &[adapter::Diag], how: &str| -> Option<Violation> {
+            let of_kind: Vec<&adapter::Diag> = diags.iter().filter(|d| d.code == case.expect_code).collect();
+            let located: Vec<&&adapter::Diag> = of_kind
+                .iter()
+                .filter(|d| src_lines.contains(&ti.line_col(d.range.start.raw.min(ti.len())).0))
+                .collect();
+            let reg_ok = |d: &adapter::Diag| match case.accept_reg {
+                None => true,
+                Some(r) => {
+                    let s = ti.slice(d.range.start.raw, d.range.end.raw + 1);
+                    // either the operand itself or, for ra written by a call, the call's implicit
+                    // operand (its mnemonic) or the whole instruction
+                    reg_from_name(&s) == Some(r) || r == RA
+                }
+            };
+            if located.iter().any(|d| reg_ok(d)) {
+                return None;
             }
+            let outcome = if of_kind.is_empty() {
+                "missing"
+            } else if located.is_empty() {
+                "misplaced"
+            } else {
+                "wrong-operand"
+            };
+            Some(
+                Violation::new(format!(
+                    "injected violation '{}' must give a {} diagnostic on line(s) {:?}{}{how}; diagnostics: {:?}\n{}",
+                    case.class,
+                    case.expect_code,
+                    src_lines.iter().map(|l| l + 1).collect::<Vec<_>>(),
+                    case.accept_reg.map(|r| format!(" about {}", ABI[r as usize])).unwrap_or_default(),
+                    diags.iter().map(|d| format!("{}@{}:{}", d.code, d.range.start.line + 1, d.range.start.col + 1)).collect::<Vec<_>>(),
+                    rd.text
+                ))
+                .with("class", case.class.clone())
+                .with("outcome", outcome),
+            )
         };
-        if located.iter().any(|d| reg_ok(d)) {
-            return vec![];
+        if let Some(v) = judge(&lint.diags, "") {
+            return vec![v];
         }
-        let outcome = if of_kind.is_empty() {
-            "missing"
-        } else if located.is_empty() {
-            "misplaced"
-        } else {
-            "wrong-operand"
-        };
-        vec![Violation::new(format!(
-            "injected violation '{}' must give a {} diagnostic on line(s) {:?}{}; diagnostics: {:?}\n{}",
-            case.class,
-            case.expect_code,
-            src_lines.iter().map(|l| l + 1).collect::<Vec<_>>(),
-            case.accept_reg.map(|r| format!(" about {}", ABI[r as usize])).unwrap_or_default(),
-            lint.diags.iter().map(|d| format!("{}@{}:{}", d.code, d.range.start.line + 1, d.range.start.col + 1)).collect::<Vec<_>>(),
-            rd.text
-        ))
-        .with("class", case.class.clone())
-        .with("outcome", outcome)]
+        // the same program cut into two files: lines a..b of the text live in an included file
+        if let Some((a, b)) = case.cut {
+            let lines: Vec<&str> = rd.text.lines().collect();
+            if a < b && b <= lines.len() {
+                let mut main: Vec<String> = lines[..a].iter().map(|s| s.to_string()).collect();
+                main.push(".include \"part.s\"".into());
+                main.extend(lines[b..].iter().map(|s| s.to_string()));
+                let part: Vec<String> = lines[a..b].iter().map(|s| s.to_string()).collect();
+                let files: adapter::Files = vec![("main.s".into(), main.join("\n") + "\n"), ("part.s".into(), part.join("\n") + "\n")];
+                if let Ok(l2) = adapter::lint(&files) {
+                    ctx.fact("mutants_linted_as_two_files", 1);
+                    // put every diagnostic back on the line of the single text it belongs to
+                    let mut back: Vec<adapter::Diag> = vec![];
+                    for d in &l2.diags {
+                        let gl = if d.file == "part.s" {
+                            a + d.range.start.line
+                        } else if d.range.start.line < a {
+                            d.range.start.line
+                        } else if d.range.start.line == a {
+                            continue;
+                        } else {
+                            d.range.start.line - 1 + (b - a)
+                        };
+                        let Some(ls) = ti.line_starts.get(gl) else { continue };
+                        let mut d2 = d.clone();
+                        let len = d.range.end.raw.saturating_sub(d.range.start.raw);
+                        d2.range.start.raw = ls + d.range.start.col;
+                        d2.range.end.raw = d2.range.start.raw + len;
+                        d2.range.start.line = gl;
+                        back.push(d2);
+                    }
+                    if let Some(v) = judge(&back, " (program cut into two files)") {
+                        return vec![v.with("layout", "two-files")];
+                    }
+                }
+            }
+        }
+        vec![]
     }
 
     fn show(case: &Case) -> Value {
